@@ -8,7 +8,120 @@ RULE = ("binary_op_with_limit / fused_binary_flip_op_with_limit for EVERY limit 
         "operands over 3..8 variables with flips, non-canonical operands; cmp_implies on all pairs of a pool. relations: the Option<Bdd> equals "
         "the model's exactly (Some r iff |r|<=limit and then r identical to the unrestricted result, which is also obtained from the implementation "
         "in the same program); dry run: flag == !is_false(result), count >= decision nodes of the result, None iff the unlimited count exceeds the "
-        "limit (the exact count is recorded, not compared); cmp_implies == inclusion of truth tables. non-trivial = result >=3 nodes")
+        "limit (the exact count is recorded, not compared); cmp_implies == inclusion of truth tables. non-trivial = result >=3 nodes. "
+        "LARGE operands (model side: the proved-equal fast twins of Model/ApplyFast2.v, Proofs/ApplyFast2.v): a random function of 20 "
+        "variables (>70,000 nodes, so pointers and store sizes exceed 65,536) against a small function of 2..3 of the same variables "
+        "(large operand on the right; thorough: also on the left, with flips), connective with a large result whose exact size n is "
+        "known in advance (canonical array of the expected truth table, built independently in Python): limits n-1, n, n+1 (thorough: "
+        "also 1, 2, 65535, 65536, 65537, n/2, n+5000); dry runs with limits c-1, c, c+1 around the task count c of an independent "
+        "Python simulation (thorough: also 0, 65535, 65536, c/2, c+100000) and the unlimited dry run; MEDIUM operands (random "
+        "functions of 10..12 variables, 250..700 nodes) with limits around the result size, served by the fast twins in the normal "
+        "run and re-run with the reference definitions in the engine cross-check")
+
+
+# ----------------------------------------------------------------------------- large operands
+BIG_NV = 20
+
+
+def as_bool(p):
+    return False if p == 0 else True if p == 1 else None
+
+
+def table_lookup2(t, l, r):
+    oi = lambda x: 0 if x is None else 2 if x else 1
+    c = t[2 + 3 * oi(l) + oi(r)]
+    return None if c == "-" else c == "1"
+
+
+def py_dry_count(a, b, fa, fb, t):
+    """independent simulation of the dry run over raw arrays: number of distinct non-terminal task pairs reachable from
+    the root pair (the output flip only changes the visiting order, not the set)"""
+    seen = set()
+    stack = [(len(a) - 1, len(b) - 1)]
+    while stack:
+        l, r = stack.pop()
+        if table_lookup2(t, as_bool(l), as_bool(r)) is not None or (l, r) in seen:
+            continue
+        seen.add((l, r))
+        lv, rv = a[l][0], b[r][0]
+        dv = min(lv, rv)
+        if lv != dv:
+            ll, lh = l, l
+        elif fa == lv:
+            ll, lh = a[l][2], a[l][1]
+        else:
+            ll, lh = a[l][1], a[l][2]
+        if rv != dv:
+            rl, rh = r, r
+        elif fb == rv:
+            rl, rh = b[r][2], b[r][1]
+        else:
+            rl, rh = b[r][1], b[r][2]
+        stack.append((ll, rl))
+        stack.append((lh, rh))
+    return len(seen)
+
+
+def limit_programs(a, b, t, fa, fb, fo, limits, dry_limits):
+    """two programs (so that they run on different shards): the limited operator, the dry run; each with the unrestricted
+    result first"""
+    head = [["a", "id", bdd_sx(a)], ["b", "id", bdd_sx(b)],
+            ["full", "fbin", t, optvar(fa), optvar(fb), optvar(fo), "$a", "$b"]]
+    p1 = list(head)
+    for lim in limits:
+        p1.append(["l%d" % lim, "fbinlim", str(lim), t, optvar(fa), optvar(fb), optvar(fo), "$a", "$b"])
+    p2 = list(head) + [["dinf", "dry", "100000000", t, optvar(fa), optvar(fb), optvar(fo), "$a", "$b"]]
+    for lim in dry_limits:
+        p2.append(["d%d" % lim, "dry", str(lim), t, optvar(fa), optvar(fb), optvar(fo), "$a", "$b"])
+    return [p1, p2]
+
+
+BIG_CONNS = [(False, True, True, False), (True, False, False, True), (False, False, False, True), (False, True, True, True),
+             (True, True, False, True), (False, False, True, False), (False, True, False, False), (True, False, True, True)]
+
+
+def large_programs(rng, tier):
+    progs = []
+    nfam = 1 if tier == "quick" else 6
+    for i in range(nfam):
+        nv = BIG_NV
+        tb = big_random_tt(rng, nv)
+        big = big_bdd_from_tt(nv, tt_to_bytes(nv, tb))
+        assert len(big) > 70000 and is_canonical(big)[0], "large-operand generator is broken"
+        while True:
+            small, ts = small_fn_tt(rng, nv)
+            conn = BIG_CONNS[i % 2] if tier == "quick" else rng.choice(BIG_CONNS)
+            if tier == "quick" or i % 2 == 0:
+                fa = fb = fo = None
+            else:
+                fa, fb, fo = (rand_optvar(rng, nv, 0.3) for _ in range(3))
+            big_left = tier != "quick" and i % 3 == 2
+            (a, ta), (b, tb2) = ((big, tb), (small, ts)) if big_left else ((small, ts), (big, tb))
+            expected = tt_flip(nv, tt_conn2(nv, conn, tt_flip(nv, ta, fa), tt_flip(nv, tb2, fb)), fo)
+            n = len(big_bdd_from_tt(nv, tt_to_bytes(nv, expected)))
+            if n > 66000:
+                break
+        t = partial_table(rng, conn)
+        c = py_dry_count(a, b, fa, fb, t)
+        limits = [n - 1, n, n + 1]
+        dry_limits = [c - 1, c, c + 1]
+        if tier != "quick":
+            limits = [1, 2, 65535, 65536, 65537, n // 2] + limits + [n + 5000]
+            dry_limits = [0, 65535, 65536, c // 2] + dry_limits + [c + 100000]
+        progs += limit_programs(a, b, t, fa, fb, fo, limits, dry_limits)
+    # medium operands: both random functions of 10..12 variables
+    for i in range(2 if tier == "quick" else 20):
+        nv = rng.choice([10, 11, 12])
+        ta, tb = big_random_tt(rng, nv), big_random_tt(rng, nv)
+        a, b = big_bdd_from_tt(nv, tt_to_bytes(nv, ta)), big_bdd_from_tt(nv, tt_to_bytes(nv, tb))
+        conn = rng.choice(BIG_CONNS)
+        fa, fb, fo = (rand_optvar(rng, nv, 0.5) for _ in range(3))
+        expected = tt_flip(nv, tt_conn2(nv, conn, tt_flip(nv, ta, fa), tt_flip(nv, tb, fb)), fo)
+        n = len(big_bdd_from_tt(nv, tt_to_bytes(nv, expected)))
+        t = partial_table(rng, conn)
+        c = py_dry_count(a, b, fa, fb, t)
+        progs += limit_programs(a, b, t, fa, fb, fo, [max(0, n - 1), n, n + 1, n // 2], [max(0, c - 1), c, c + 1, c // 2])
+    return progs
 
 
 def programs(rng, tier):
@@ -47,7 +160,8 @@ def programs(rng, tier):
         t = partial_table(rng, rng.choice(CONNS))
         P.add(["binlim", str(rng.randrange(0, 12)), t, bdd_sx(a), bdd_sx(b)])
         P.add(["drybin", str(rng.randrange(0, 12)), t, bdd_sx(a), bdd_sx(b)])
-    return progs + P.progs + cmp_implies_programs(rng, tier)
+    # large / medium operands last (the vm_compute cross-check samples the first small steps)
+    return progs + P.progs + cmp_implies_programs(rng, tier) + large_programs(rng, tier)
 
 
 def cmp_implies_programs(rng, tier):
@@ -214,6 +328,8 @@ def judge(st, V):
         return
     machinery_guard(st)
     sample(V, st)
+    if any(is_bdd(x) and len(x) > 3 * 65536 for x in call[1:]):
+        V.count("large-operand(>65536 nodes):" + op)
     if op == "fbin":
         _full[sx_str(call[1:])] = impl
         _fullmodel[sx_str(call[1:])] = model
